@@ -130,7 +130,13 @@ func (f *frame) stdlib(i *ssa.Call, full string, args []T, st *State, pc string)
 		r := g.s.decl("sprintf", "B")
 		return []T{{"(mk false " + r.S + ")", "NB"}}, pc, true
 	}
-	// generic: no effect on package state, unconstrained results
+	// generic: unconstrained results; memory handed to the callee (slices, pointers, also
+	// when wrapped in an interface value) may have been modified by it
+	if !externalIsPure(full) {
+		for _, a := range i.Call.Args {
+			f.havocReachable(a, st, pc, full)
+		}
+	}
 	callee := i.Call.StaticCallee()
 	res := callee.Signature.Results()
 	var rs []T
@@ -143,4 +149,48 @@ func (f *frame) stdlib(i *ssa.Call, full string, args []T, st *State, pc string)
 	g.havocked = append(g.havocked, funcKey(f.fn)+": external "+full+" (results unconstrained, no effect on package state assumed)")
 	_ = types.Typ
 	return rs, pc, true
+}
+
+// externalIsPure: standard-library functions known not to write through their arguments.
+func externalIsPure(full string) bool {
+	for _, p := range []string{"fmt.", "strings.", "bytes.", "strconv.", "errors.", "math.", "unicode.", "os.Getenv", "regexp.Compile", "regexp.MustCompile", "(*regexp.Regexp).Match", "encoding/json.Marshal", "reflect."} {
+		if strings.HasPrefix(full, p) {
+			return true
+		}
+	}
+	return false
+}
+
+// havocReachable: an external callee may write the elements of a slice / the target of a pointer it is given.
+func (f *frame) havocReachable(a ssa.Value, st *State, pc, who string) {
+	g := f.g
+	if mi, ok := a.(*ssa.MakeInterface); ok {
+		f.havocReachable(mi.X, st, pc, who)
+		return
+	}
+	switch t := a.Type().Underlying().(type) {
+	case *types.Slice:
+		if isByteSlice(a.Type()) {
+			return
+		}
+		v := f.val(a)
+		h := g.elemHeapOf(t.Elem())
+		hv := g.hv(st, h)
+		el := splitSort(hv.sort)[2]
+		d := g.s.def(h, T{"(store " + hv.term + " (ptr " + v.S + ") " + g.s.decl("ext."+h, el).S + ")", hv.sort})
+		g.setHeap(st, h, g.newHV(h, hv.sort, d.S, hvStore, hv))
+		g.havocked = append(g.havocked, funcKey(f.fn)+": external "+who+" may modify the elements of a slice argument (havocked)")
+	case *types.Pointer:
+		v := f.val(a)
+		if stt, ok := t.Elem().Underlying().(*types.Struct); ok {
+			for k := 0; k < stt.NumFields(); k++ {
+				h, ft := g.fieldHeapOf(t.Elem(), k)
+				g.writeHeap(st, h, v.S, g.s.decl("ext."+h, g.sortOf(ft)).S)
+			}
+		} else if _, isArr := t.Elem().Underlying().(*types.Array); !isArr {
+			h := g.boxHeapOf(t.Elem())
+			g.writeHeap(st, h, v.S, g.s.decl("ext."+h, g.sortOf(t.Elem())).S)
+		}
+		g.havocked = append(g.havocked, funcKey(f.fn)+": external "+who+" may write through a pointer argument (havocked)")
+	}
 }
